@@ -25,28 +25,94 @@ func (c *RC) handlers() map[string]*FuncInfo {
 	kinds := []string{"ChangeViewType", "PrepareRequestType", "PrepareResponseType", "PreCommitType", "CommitType", "RecoveryRequestType", "RecoveryMessageType"}
 	m := msgParam()
 	ty := getter("ConsensusMessage", "Type", m, false)
-	// a handler of kind K is a function called from OnReceive with the payload, at a site where every path knows Type() == K
+	_ = ty
+	// a handler of kind K is a function called with the received payload (the caller's own payload parameter, passed
+	// through from OnReceive) at a site where every path knows Type() == K; the dispatch may live in OnReceive or in
+	// a helper it calls
+	disp := map[*FuncInfo]bool{or: true}
 	for _, s := range c.A.FnSites[or] {
-		if s.Kind != "call" || s.Target == nil || s.Target == or || len(s.Snaps) == 0 {
+		if s.Kind == "call" && s.Target != nil && len(s.Target.Params) == 1 && isPayloadLike(s.Target.Params[0].Type()) && c.A.inlinable(s.Target) {
+			disp[s.Target] = true
+		}
+	}
+	best := map[string]*FuncInfo{}
+	for fn := range disp {
+		if len(fn.Params) != 1 {
 			continue
 		}
-		for _, k := range kinds {
-			all := true
-			for _, sn := range s.Snaps {
-				if len(sn.Args) != 1 || sn.Args[0].S != "p:msg" {
-					all = false
-					break
+		cand := map[string]*FuncInfo{}
+		pt := mkTerm(KParam, fn.Params[0].Name())
+		pt.NonNil = true
+		tyf := getter("ConsensusMessage", "Type", pt, false)
+		for _, s := range c.A.FnSites[fn] {
+			if s.Kind != "call" || s.Target == nil || s.Target == fn || len(s.Snaps) == 0 {
+				continue
+			}
+			for _, k := range kinds {
+				all := true
+				for _, sn := range s.Snaps {
+					if len(sn.Args) != 1 || sn.Args[0].S != pt.S {
+						all = false
+						break
+					}
+					if v, ok := sn.F.value(mkAtom("eq", tyf, constTerm(k))); !ok || !v {
+						all = false
+						break
+					}
 				}
-				if v, ok := sn.F.value(mkAtom("eq", ty, constTerm(k))); !ok || !v {
-					all = false
-					break
+				if all {
+					cand[k] = s.Target
 				}
 			}
-			if all {
-				out[k] = s.Target
+		}
+		// the dispatcher is the function that routes most kinds
+		if len(cand) > len(best) {
+			best = cand
+		}
+	}
+	// kinds routed elsewhere (e.g. one kind peeled off with an `if` before the switch) complete the map
+	for fn := range disp {
+		if len(fn.Params) != 1 {
+			continue
+		}
+		pt := mkTerm(KParam, fn.Params[0].Name())
+		pt.NonNil = true
+		tyf := getter("ConsensusMessage", "Type", pt, false)
+		for _, s := range c.A.FnSites[fn] {
+			if s.Kind != "call" || s.Target == nil || s.Target == fn || len(s.Snaps) == 0 {
+				continue
+			}
+			isHandlerOfBest := false
+			for _, h := range best {
+				if h == fn {
+					isHandlerOfBest = true
+				}
+			}
+			if isHandlerOfBest {
+				continue
+			}
+			for _, k := range kinds {
+				if _, done := best[k]; done {
+					continue
+				}
+				all := true
+				for _, sn := range s.Snaps {
+					if len(sn.Args) != 1 || sn.Args[0].S != pt.S {
+						all = false
+						break
+					}
+					if v, ok := sn.F.value(mkAtom("eq", tyf, constTerm(k))); !ok || !v {
+						all = false
+						break
+					}
+				}
+				if all {
+					best[k] = s.Target
+				}
 			}
 		}
 	}
+	out = best
 	return out
 }
 
@@ -267,6 +333,13 @@ func ruleIdx(c *RC) *RuleResult {
 				case i.S == "ctx.MyIndex":
 					class = "own index"
 					need = append(need, sn)
+				case i.K == KParam:
+					// an index handed in by the callers: judged at every call site of the function
+					if why := c.paramIndexOK(fn, i, tables, lenV, 0); why == "" {
+						class = "index parameter, in range at every call site"
+					} else {
+						bad = why
+					}
 				default:
 					bad = "index " + i.S + " is in none of the allowed classes"
 				}
@@ -412,4 +485,53 @@ func ruleDeref(c *RC) *RuleResult {
 		return nn(sn.Recv)
 	}, nil)
 	return r
+}
+
+// paramIndexOK: every caller passes an in-range index for the parameter.
+func (c *RC) paramIndexOK(fn *FuncInfo, p *Term, tables map[string]bool, lenV *Term, depth int) string {
+	if depth > 3 {
+		return "index parameter chain too deep"
+	}
+	pidx := -1
+	for i, fp := range fn.Params {
+		if "p:"+fp.Name() == p.S {
+			pidx = i
+		}
+	}
+	if pidx < 0 {
+		return "index " + p.S + " is not a parameter of " + fn.Name
+	}
+	cs := c.A.callers[fn]
+	if len(cs) == 0 {
+		return "function " + fn.Name + " indexes a table by its parameter and is exported or has no visible callers"
+	}
+	for _, s := range cs {
+		for _, sn := range s.Snaps {
+			if pidx >= len(sn.Args) {
+				return "call without the index argument"
+			}
+			a := sn.Args[pidx]
+			switch {
+			case a.K == KLocal && strings.HasPrefix(a.Name, "rangekey:") && tableOfRangeKey(a.Name, tables):
+			case a.S == "ctx.PrimaryIndex" || (a.K == KCall && a.Name == "fn:Context.GetPrimaryIndex"):
+			case a.K == KParam:
+				if why := c.paramIndexOK(s.Fn, a, tables, lenV, depth+1); why != "" {
+					return why
+				}
+			case a.S == "ctx.MyIndex":
+				d := c.A.newDemand(c.apiList)
+				if f := d.proveSnap(s, sn, fNot(lt(tMyIndex, tZero)), 0); f != nil {
+					return "own index passed without MyIndex >= 0: " + f.String()
+				}
+			case a.K == KCall && strings.HasSuffix(a.Name, ".ValidatorIndex") && len(a.Args) == 1 && a.Args[0].K == KParam:
+				d := c.A.newDemand(c.apiList)
+				if f := d.proveSnap(s, sn, lt(a, lenV), 0); f != nil {
+					return "sender index passed without the bound check: " + f.String()
+				}
+			default:
+				return fmt.Sprintf("%s passes %s as a table index to %s", s.Fn.Name, a.S, fn.Name)
+			}
+		}
+	}
+	return ""
 }
